@@ -28,6 +28,13 @@ Theorem C07_tie_ctx_removal_guard : QuillGen.SrcFacts.be_ctx_removal_requires_em
 Proof. exact TieCtx.src_be_ctx_removal_requires_empty_buffer. Qed.
 Print Assumptions C07_tie_ctx_removal_guard.
 
+(* T-src: the emptiness question the drain loop asks of an unbounded queue covers the node's successor *)
+Theorem C07_tie_unbounded_empty_checks_successor : QuillGen.SrcFacts.sk_uq_empty = [
+    "RET return _consumer->bounded_queue.empty() && (_consumer->next.load(std::memory_order_relaxed) == nullptr)";
+    "  ATOMIC _consumer->next load [memory_order_relaxed]"]%string.
+Proof. exact TieC07.src_uq_empty_checks_successor. Qed.
+Print Assumptions C07_tie_unbounded_empty_checks_successor.
+
 (* every configuration, every history before the stop (any interleaving of frontend and backend micro-steps,
    threads that have exited included), every pace of the clock while the drain loop spins: when the loop
    leaves (through its only exit, the "everything is empty" branch), no thread - registered, never registered,
